@@ -17,6 +17,7 @@ import NomtModel.Driver.WalkerMode
 import NomtModel.Driver.BranchUpdMode
 import NomtModel.Driver.SeekMode
 import NomtModel.Driver.PrepSyncMode
+import NomtModel.Driver.BtTreeMode
 /-!
 `nomt_model`: the executable Lean model behind a line protocol.
 First argument selects the sub-protocol; stdin → stdout, one output line per input line.
@@ -53,4 +54,5 @@ def main (args : List String) : IO UInt32 := do
   | ["branchupd"] => loop stdin stdout branchupdStep {}; return 0
   | ["seek"] => loop stdin stdout seekStep {}; return 0
   | ["prepsync"] => loop stdin stdout prepsyncStep (); return 0
+  | ["bttree"] => loop stdin stdout BtD.btStep {}; return 0
   | _ => IO.eprintln "usage: nomt_model <core|...>"; return 2
